@@ -661,18 +661,20 @@ class DEVSSimulator(Simulator[TIME], Generic[TIME]):
     def _run(self):
         self._runflag = True
         while not self.is_stopping_or_stopped():
-            # check if we are done
+            # check if we are done; the bound is read once per iteration, so
+            # that a command overlapping this decision cannot change it halfway
+            until = self._run_until_time
             if self.eventlist().is_empty():
-                t = self._run_until_time
+                t = until
             else:
                 t = self.eventlist().peek_first().time
-            if (t > self._run_until_time or (t == self._run_until_time \
+            if (t > until or (t == until \
                     and not self._run_until_including) 
                     or self.eventlist().is_empty()):
-                self._simulator_time = self._run_until_time
+                self._simulator_time = until
                 # only a bound at the end of the replication ends it; an
                 # earlier bound (run_up_to) just pauses the simulator
-                if self._run_until_time >= self._replication.end_sim_time:
+                if until >= self._replication.end_sim_time:
                     self._replication_state = ReplicationState.ENDING
                 self._run_state = RunState.STOPPING
                 return;
